@@ -80,6 +80,20 @@ template<class S,class Tg> void c10_write_times(hx::Rec<S>& R){ COMMON SETUP
   G e=X.compose(Y); VX*=CY; bx.expect("*=",e.coeffs(),GZ);
   by.untouched("after"); bt.untouched("after");
 }
+// public sub-views of composite groups: asSO3() (const and mutable) aliases exactly the rotation coefficients
+template<class S,class Tg> void c10_subviews(hx::Rec<S>& R){ COMMON
+  G X=Tg::make(R,"a",0); T t=Tg::maket(R,"t",1); const G& Xc=X; const T& tc=t;
+  enum{RO = (Rp>=7)?3:0, TO = (D==6)?3:((D==9)?3:((D==10)?6:0))};
+  hx::eqm(R,"asSO3.const", Xc.asSO3().coeffs(), typename manif::SO3<S>::DataType(X.coeffs().template segment<4>(RO)));
+  hx::eqm(R,"asSO3.mutable", X.asSO3().coeffs(), typename manif::SO3<S>::DataType(X.coeffs().template segment<4>(RO)));
+  hx::eqm(R,"t.asSO3.const", tc.asSO3().coeffs(), typename manif::SO3Tangent<S>::DataType(t.coeffs().template segment<3>(TO)));
+  hx::eqm(R,"t.asSO3.mutable", t.asSO3().coeffs(), typename manif::SO3Tangent<S>::DataType(t.coeffs().template segment<3>(TO)));
+  R.eq("asSO3.offset", S((double)(X.asSO3().data()-X.data())), S((double)RO)); R.eq("t.asSO3.offset", S((double)(t.asSO3().data()-t.data())), S((double)TO));
+  typename T::DataType before=t.coeffs(); t.asSO3().coeffs()(1)=R.var("w",7.5); typename T::DataType exp_=before; exp_(TO+1)=R.var("w",7.5); hx::eqm(R,"t.asSO3.write", t.coeffs(), exp_);
+}
+#ifdef HAS_ASSO3
+ENTRY_T(c10_subviews, TAG)
+#endif
 ENTRY_T(c10_read_compose, TAG)
 ENTRY_T(c10_read_unary, TAG)
 ENTRY_T(c10_read_plusminus, TAG)
